@@ -60,6 +60,22 @@ pub fn gen_notes(rng: &mut Rng, n: usize, thorough: bool) -> Vec<Case> {
             }
         }
     }
+    // alignment sweep on a well-formed two-note buffer: every boundary alignment a caller or a header can supply
+    {
+        let notes = vec![
+            NoteSpec { n_type: 5, name: b"ab\0".to_vec(), desc: vec![1, 2, 3, 4, 5] },
+            NoteSpec { n_type: 6, name: b"c\0".to_vec(), desc: vec![9] },
+        ];
+        let mut aligns: Vec<u64> = vec![0, 1, 2, 3, 4, 5, 7, 8, 16, 17, 64, 255, 256, 0x7fff_ffff, 0x8000_0000, 0xffff_ffff,
+                                        0x1_0000_0000, (1 << 63) - 1, 1 << 63, (1 << 63) + 1];
+        for k in 0..40u64 { aligns.push(u64::MAX - k); }
+        for a in aligns {
+            for le in [true, false] {
+                let data = build_notes(le, 4, &notes);
+                out.push((format!("notes {} 64 {} {}", le as u8, a, hex(&data)), "wf=0|align-sweep".into()));
+            }
+        }
+    }
     for _ in 0..n {
         let le = rng.below(2) == 0;
         let is64 = rng.below(2) == 0;
@@ -239,6 +255,22 @@ pub fn gen_hash(kind: &str, rng: &mut Rng, n: usize, thorough: bool) -> Vec<Case
                 format!("{} {} {} {} {} {} {}", kind, le as u8, cls(is64), hex(&symb), hex(&strb), hex(&q), hex(&hashb)),
                 ann,
             ));
+        }
+    }
+    // header-field sweep: every header word of a well-formed table set to each boundary value
+    {
+        let is64 = rng.below(2) == 0;
+        let le = rng.below(2) == 0;
+        let case = if gnu { build_gnu_case(rng, is64, le, 9, 3, 2, 5, 2) } else { build_sysv_case(rng, is64, le, 9, 3) };
+        let nwords = if gnu { 4 } else { 2 };
+        for w in 0..nwords {
+            for v in [0u64, 1, 2, 31, 32, 33, 0x7fff_ffff, 0x8000_0000, 0xffff_fffe, 0xffff_ffff] {
+                let mut h = case.hash.clone();
+                put_at(&mut h, w * 4, le, 4, v);
+                for q in [&b"absent"[..], &case.names[case.names.len() - 1][..]] {
+                    out.push((format!("{} {} {} {} {} {} {}", kind, le as u8, cls(is64), hex(&case.symtab), hex(&case.strtab), hex(q), hex(&h)), "wf=0|header-sweep".into()));
+                }
+            }
         }
     }
     // adversarial chains for termination (C16): cyclic SysV chains of every length, GNU chains without stop bit
